@@ -1,5 +1,7 @@
-import Driver.Util
-/-! `drv_rpc`: not built yet -/
+import Driver.RpcDrv
+open Driver
+
 def main : IO UInt32 := do
-  IO.eprintln "drv_rpc: engine not implemented"
-  return 2
+  let lines ← readLines (← IO.getStdin) #[]
+  RpcDrv.main lines
+  return 0
